@@ -12,13 +12,14 @@ import (
 	"os"
 	"os/exec"
 	"path/filepath"
+	"regexp"
 	"sort"
 	"strconv"
 	"strings"
 	"time"
 )
 
-const replayMaxElems = 40
+var replayMaxElems = 40
 
 type rnode struct {
 	kind   string // int bool slice ptr iface string nilonly
@@ -216,7 +217,7 @@ func (g *goGen) expr(n *rnode) string {
 	case "string":
 		l := g.vi("(strlen " + n.terms[0] + ")")
 		var bs []byte
-		for i := int64(0); i < l && i < replayMaxElems; i++ {
+		for i := int64(0); i < l && i < int64(replayMaxElems); i++ {
 			bs = append(bs, byte(g.vi(fmt.Sprintf("(strbyte %s %d)", n.terms[0], i))))
 		}
 		return strconv.Quote(string(bs))
@@ -365,6 +366,8 @@ func (p *goPrinter) print(x ast.Expr, inOld bool) string {
 				return fmt.Sprintf("vrOld%d", len(p.olds)-1)
 			case "eqbytes":
 				return "vrEqBytes(" + p.print(n.Args[0], inOld) + ", " + p.print(n.Args[1], inOld) + ")"
+			case "disjoint":
+				return "vrDisjoint(" + p.print(n.Args[0], inOld) + ", " + p.print(n.Args[1], inOld) + ")"
 			case "sameslice":
 				return "vrSameSlice(" + p.print(n.Args[0], inOld) + ", " + p.print(n.Args[1], inOld) + ")"
 			case "within":
@@ -393,6 +396,10 @@ func vrForall(lo, hi int, f func(int) bool) bool { for i := lo; i < hi; i++ { if
 func vrExists(lo, hi int, f func(int) bool) bool { for i := lo; i < hi; i++ { if f(i) { return true } }; return false }
 func vrEqBytes(a, b []byte) bool { if len(a) != len(b) { return false }; for i := range a { if a[i] != b[i] { return false } }; return true }
 func vrSameSlice(a, b []byte) bool { return len(a) == len(b) && (len(a) == 0 || &a[0] == &b[0]) }
+func vrDisjoint(a, b []byte) bool {
+	for i := range a { for j := range b { if &a[i] == &b[j] { return false } } }
+	return true
+}
 func vrWithin(f, s []byte, n int) bool {
 	if len(f) == 0 { return true }
 	for i := 0; i+len(f) <= n && i+len(f) <= len(s); i++ { if &s[i] == &f[0] { return true } }
@@ -477,6 +484,8 @@ func parseGetValue(out string) map[string]string {
 	return res
 }
 
+var symRe = regexp.MustCompile(`\|[^|]*\|`)
+
 func normTerm(s string) string { return strings.Join(strings.Fields(s), " ") }
 
 var safetyKinds = map[string]bool{"bounds": true, "slice": true, "strictslice": true, "nil": true, "div": true, "typeassert": true, "unreachable": true, "makeslice": true}
@@ -514,6 +523,18 @@ func writeReplay(eng *Engine, prop string, r *Result, qdir string) string {
 }
 
 func tryReplay(eng *Engine, prop string, r *Result, dir, name string) (gofile, log string, reproduced bool) {
+	for _, n := range []int{40, 200} {
+		replayMaxElems = n
+		gofile, log, reproduced = tryReplayN(eng, prop, r, dir, name)
+		if reproduced || gofile != "" {
+			break
+		}
+	}
+	replayMaxElems = 40
+	return
+}
+
+func tryReplayN(eng *Engine, prop string, r *Result, dir, name string) (gofile, log string, reproduced bool) {
 	t := r.fv.tr
 	fn := t.fn
 	rc := &replayCtx{t: t, seen: map[string]bool{}}
@@ -539,6 +560,7 @@ func tryReplay(eng *Engine, prop string, r *Result, dir, name string) (gofile, l
 		if h, ok := rc.entryHeap(cellHeap(obj.Type(), "")); ok {
 			term := sel(h, eng.globalByName(gname))
 			rc.want(term)
+			rc.facts = append(rc.facts, rangeFact(obj.Type(), []string{term}))
 			globals = append(globals, gl{obj.Name(), term, obj.Type()})
 		}
 	}
@@ -547,17 +569,16 @@ func tryReplay(eng *Engine, prop string, r *Result, dir, name string) (gofile, l
 	var lastOut string
 	for attempt := 0; attempt < 3; attempt++ {
 		var extra strings.Builder
+		modelKeepQuant = attempt < 1 && replayMaxElems <= 40
 		for _, c := range rc.facts {
 			if c != "true" {
 				extra.WriteString("(assert " + c + ")\n")
 			}
 		}
-		if attempt < 2 {
-			for _, c := range rc.small {
-				extra.WriteString("(assert " + c + ")\n")
-			}
+		for _, c := range rc.small {
+			extra.WriteString("(assert " + c + ")\n")
 		}
-		if attempt == 0 {
+		if attempt < 2 {
 			// prefer cap == len, off == 0 for parameter slices (C04: capacity equals length)
 			for _, p := range fn.Params {
 				if _, ok := under(p.Type()).(*types.Slice); ok {
@@ -567,11 +588,34 @@ func tryReplay(eng *Engine, prop string, r *Result, dir, name string) (gofile, l
 			}
 		}
 		qs := buildQuery(eng, "z3", r.fv, r.k, true)
-		qs = strings.Replace(qs, "(check-sat)\n(get-model)\n", extra.String()+"(check-sat)\n(get-value ("+strings.Join(rc.terms, " ")+"))\n", 1)
+		declared := func(term string) bool {
+			for _, sym := range symRe.FindAllString(term, -1) {
+				if !strings.Contains(qs, "(declare-const "+sym+" ") {
+					return false
+				}
+			}
+			return true
+		}
+		var terms []string
+		for _, tm := range rc.terms {
+			if declared(tm) {
+				terms = append(terms, tm)
+			}
+		}
+		var ex2 strings.Builder
+		for _, ln := range strings.Split(extra.String(), "\n") {
+			if ln != "" && declared(ln) {
+				ex2.WriteString(ln + "\n")
+			}
+		}
+		qs = strings.Replace(qs, "(check-sat)\n(get-model)\n", ex2.String()+"(check-sat)\n(get-value ("+strings.Join(terms, " ")+"))\n", 1)
 		file := filepath.Join(dir, "."+name+".model.smt2")
 		os.WriteFile(file, []byte(qs), 0o644)
-		st, out, _ := runSolver("z3new", file, 20*time.Second)
-		os.Remove(file)
+		st, out, _ := runSolver("z3new", file, 6*time.Second)
+		if os.Getenv("GOVC_KEEP_MODEL") == "" {
+			os.Remove(file)
+		}
+		modelKeepQuant = false
 		lastOut = out
 		if st == "sat" {
 			vals = parseGetValue(out)
